@@ -877,7 +877,10 @@ pub fn fuzz_stage(prop: Arc<dyn Prop>, tier: Tier, out: &mut RunOutcome) -> Opti
         return None;
     }
     let root = verif_root();
-    let bin = root.join("fuzz/target/x86_64-unknown-linux-gnu/release").join(target);
+    let bin = std::env::var("PV_FUZZ_BIN_DIR")
+        .map(PathBuf::from)
+        .unwrap_or_else(|_| root.join("fuzz/target/x86_64-unknown-linux-gnu/release"))
+        .join(target);
     let mut st = FuzzStats { target: target.to_string(), secs, ..Default::default() };
     if !bin.exists() {
         st.note = format!("fuzz binary {} not built; stage skipped", bin.display());
